@@ -463,6 +463,17 @@ def run_unit(unit, tier, scratch, keep=False):
     if uw:
         res.infra = "unwinding assertion failed (bound too small): %s" % [o["id"] for o in uw][:5]
         res.failed = [o for o in res.failed if o["class"] != "unwind"]
+    # an assertion whose text starts with "harness" states an assumption of the harness about the code's SHAPE (e.g. "realloc
+    # doubles", "at most two gather buffers"); if it fails the unit no longer models this code: undecided, never a violation
+    hz = [o for o in res.failed if str(o.get("description", "")).startswith("harness")]
+    if hz:
+        res.infra = "harness assumption no longer holds (unit must be adapted): %s" % [o["description"] for o in hz][:3]
+        res.failed = [o for o in res.failed if not str(o.get("description", "")).startswith("harness")]
+    # units that only establish the contract a STUB in other units relies on (strongest postcondition of today's code, stronger
+    # than the property needs): a failure means the stub must be re-derived, not that the property is violated
+    if unit.get("failure_is_infra") and res.failed:
+        res.infra = "stub contract no longer matches the code (dependent units must be adapted): %s" % [o.get("tag") or o["id"] for o in res.failed][:4]
+        res.failed = []
     # vacuity guard 1: expected obligation classes present
     counts = {}
     for ob in res.obligations:
